@@ -36,7 +36,7 @@ def print_tm(g, opts=None, pkgroot="vgen"):
         lines.append("error:")
     if g.get("lexer_extra"):
         lines.append(g["lexer_extra"])
-    lines += ["", ":: parser", ""]
+    lines += ["", ":: parser" + ((" lalr(%d)" % g["lalr"]) if g.get("lalr") else ""), ""]
     ins = []
     for nt, noeoi in g["inputs"]:
         ins.append(nt + (" no-eoi" if noeoi else ""))
